@@ -28,7 +28,8 @@ def also(prop, formula, scenario):
     # the multi-instance property also owns append-only history and complete
     # storage in the scenarios with several instances
     if prop == "C06" and re.match(r"(instances|startup)/", scenario):
-        return formula in ("C01.PubAppendOnly", "C01.LockAppendOnly", "C04.PubBacked", "C01.PublishedWasLocked")
+        return formula in ("C01.PubAppendOnly", "C01.PubAppendOnly.StaleInstance", "C01.LockAppendOnly", "C04.PubBacked",
+                           "C01.PublishedWasLocked")
     # under tampering, "whatever it signs extends the committed tree" is the
     # tamper property's own statement
     if prop == "C08" and re.match(r"(tamper|startup)/", scenario):
